@@ -22,10 +22,10 @@ Qed.
 Lemma dsum_mono : forall w r (f g : ztask -> bool) l, (forall t, In t l -> 0 <= demand w t r) ->
   (forall t, In t l -> f t = true -> g t = true) -> dsum w r (filter f l) <= dsum w r (filter g l).
 Proof.
-  intros w r f g l Hd Hfg. unfold dsum. induction l as [|t l IH]; [cbn; lia|]. cbn [filter].
+  intros w r f g l Hd Hfg. unfold dsum. induction l as [|t l IH]; [cbn [filter fold_right]; lia|]. cbn [filter].
   assert (IH' := IH (fun t' Ht' => Hd t' (or_intror Ht')) (fun t' Ht' => Hfg t' (or_intror Ht'))).
   pose proof (Hd t (or_introl eq_refl)). pose proof (Hfg t (or_introl eq_refl)).
-  destruct (f t), (g t); cbn [fold_right]; try lia. specialize (H0 eq_refl). discriminate.
+  destruct (f t), (g t); cbn [fold_right]; lia.
 Qed.
 Lemma max_start : forall a (l : list ztask), l <> [] -> exists t0, In t0 l /\ forall t, In t l -> t_start a t <= t_start a t0.
 Proof.
@@ -42,7 +42,7 @@ Lemma starts_suffice : forall ins a k w r, 0 <= avail w r -> (forall t, In t (i_
   forall tau, load ins a k w r tau <= avail w r.
 Proof.
   intros ins a k w r Hav Hd H tau. rewrite load_dsum.
-  destruct (filter (sel ins a k tau) (i_tasks ins)) as [|x l] eqn:E; [cbn; lia|].
+  destruct (filter (sel ins a k tau) (i_tasks ins)) as [|x l] eqn:E; [cbn [dsum fold_right]; unfold dsum; cbn [fold_right]; lia|].
   destruct (max_start a (x :: l) ltac:(discriminate)) as (t0 & Hin0 & Hmax). rewrite <- E in Hin0, Hmax.
   apply filter_In in Hin0. destruct Hin0 as [Ht0 Hsel0].
   specialize (H t0 Ht0). rewrite load_dsum in H. rewrite <- E.
